@@ -465,13 +465,6 @@ let rec take_doc t = function
 let has_close b d =
   existsb (is_close b) d
 
-(** val has_open : doc -> bool **)
-
-let has_open d =
-  existsb (fun i -> match i with
-                    | SOpen _ -> true
-                    | _ -> false) d
-
 (** val after_open : nat -> item list -> item list option **)
 
 let rec after_open b = function
@@ -591,9 +584,9 @@ let spec_step sp o =
           sp_n = n0 }
       | None -> sp))
 
-(** val wf_op : bool -> spec -> op -> bool **)
+(** val wf_op : spec -> op -> bool **)
 
-let wf_op strict sp o =
+let wf_op sp o =
   let n0 = sp.sp_n in
   (match o with
    | ONew -> true
@@ -606,18 +599,13 @@ let wf_op strict sp o =
         | Some p -> let (d, _) = p in negb (has_close b d)
         | None -> false)
    | OCommit b -> Nat.ltb b n0
-   | OReset b ->
-     (&&) (Nat.ltb b n0)
-       ((||) (negb strict)
-         (match sregion sp b with
-          | Some body -> negb (has_open body)
-          | None -> false)))
+   | OReset b -> Nat.ltb b n0)
 
-(** val wf_hist : bool -> spec -> op list -> bool **)
+(** val wf_hist : spec -> op list -> bool **)
 
-let rec wf_hist strict sp = function
+let rec wf_hist sp = function
 | [] -> true
-| o :: r -> (&&) (wf_op strict sp o) (wf_hist strict (spec_step sp o) r)
+| o :: r -> (&&) (wf_op sp o) (wf_hist (spec_step sp o) r)
 
 (** val spec_run : op list -> spec **)
 
